@@ -779,7 +779,11 @@ class CodeGen {
             value = offset - static_cast<int>(size);
           }
         } else {
-          assert((labelValue & 0x3) == 0 && "absolute label value is not word aligned");
+          if (labelValue & 0x3) {
+            throw Error(directive->getLocation(),
+                        "absolute reference to label " + instrLabel->getLabel() +
+                        " which is not word aligned");
+          }
           value = labelValue >> 2;
           if (size < operandSize(value)) {
             size = operandSize(value);
